@@ -472,6 +472,91 @@ theorem fresnelForward_neg_z_eq_backward (X : ℕ → ℕ → ℂ) :
   funext qy qx
   exact fresnelTF_neg_z p qy qx
 
+/-! ### the Fresnel propagator *with the regime switch* (`fresnelPropagatorForward` / `…Backward`: what op `prop` runs)
+
+`make_instance` chooses between the sampled transfer function (`fresnelForward`, above) and the Fourier transform of the
+sampled impulse response (`fresnelIrTF`) by `np.any(delta < λ|z|/L_max)` = `impulseBranch p`.  Linearity and adjointness
+hold on either branch; the regime clauses are those of `fresnelForward_*`, because inside the regime the switch selects that
+pipeline (`fresnelPropagator_eq_fresnelForward_of_sampled`). -/
+
+/-- `FresnelPropagator.forward` is linear on either branch of the regime switch, any padding, oversampling, distance. -/
+theorem fresnelPropagator_linear (a b : ℂ) (x y : Fin p.ny × Fin p.nx → ℂ) (j : Fin p.ny × Fin p.nx) :
+    fresnelPropagatorForward cScalar p (ext2 (a • x + b • y)) (j.1 : ℕ) (j.2 : ℕ)
+      = a * fresnelPropagatorForward cScalar p (ext2 x) (j.1 : ℕ) (j.2 : ℕ)
+        + b * fresnelPropagatorForward cScalar p (ext2 y) (j.1 : ℕ) (j.2 : ℕ) := by
+  simp only [fresnelPropagatorForward_eq]
+  exact fourierFilter_linear p h _ a b x y j
+
+/-- `FresnelPropagator.backward` is the exact adjoint of `.forward` on either branch of the regime switch (also outside the
+sampled regime, where the transfer function is the transformed impulse response and is not unimodular). -/
+theorem fresnelPropagator_adjoint (x y : Fin p.ny × Fin p.nx → ℂ) :
+    ip y (fun j => fresnelPropagatorForward cScalar p (ext2 x) (j.1 : ℕ) (j.2 : ℕ))
+      = ip (fun j => fresnelPropagatorBackward cScalar p (ext2 y) (j.1 : ℕ) (j.2 : ℕ)) x := by
+  simp only [fresnelPropagatorForward_eq, fresnelPropagatorBackward_eq]
+  exact fourierFilter_adjoint p h _ x y
+
+omit h in
+/-- Inside the sampled regime (`pixel ≥ λ|z|/extent` on both axes, i.e. `impulseBranch p = false`) the switch selects the
+transfer-function pipeline: `forward` / `backward` *are* `fresnelForward` / `fresnelBackward`. -/
+theorem fresnelPropagator_eq_fresnelForward_of_sampled (hs : impulseBranch p = false) :
+    fresnelPropagatorForward cScalar p = fresnelForward cScalar p ∧
+      fresnelPropagatorBackward cScalar p = fresnelBackward cScalar p := by
+  constructor <;> funext X
+  · unfold fresnelPropagatorForward
+    rw [hs]
+    rfl
+  · unfold fresnelPropagatorBackward
+    rw [hs]
+    rfl
+
+/-- Sampled regime ⇒ the propagator the code builds never increases the power (any padding, oversampling, sign of `z`). -/
+theorem fresnelPropagator_power_nonincreasing (hs : impulseBranch p = false) (x : Fin p.ny × Fin p.nx → ℂ) :
+    nsq (fun j : Fin p.ny × Fin p.nx => fresnelPropagatorForward cScalar p (ext2 x) (j.1 : ℕ) (j.2 : ℕ)) ≤ nsq x := by
+  rw [(fresnelPropagator_eq_fresnelForward_of_sampled p hs).1]
+  exact fresnelForward_power_nonincreasing p h x
+
+/-- Sampled regime, `zero_padding = 1`, `num_oversampling = 1`: unitary … -/
+theorem fresnelPropagator_unitary (hs : impulseBranch p = false) (hx : p.sx = 1) (hy : p.sy = 1) (hc : cutout p = none)
+    (x : Fin p.ny × Fin p.nx → ℂ) :
+    nsq (fun j : Fin p.ny × Fin p.nx => fresnelPropagatorForward cScalar p (ext2 x) (j.1 : ℕ) (j.2 : ℕ)) = nsq x := by
+  rw [(fresnelPropagator_eq_fresnelForward_of_sampled p hs).1]
+  exact fresnelForward_unitary p h hx hy hc x
+
+/-- … `backward` inverts `forward` … -/
+theorem fresnelPropagator_backward_inverse (hs : impulseBranch p = false) (hx : p.sx = 1) (hy : p.sy = 1)
+    (hc : cutout p = none) (x : Fin p.ny × Fin p.nx → ℂ) (j : Fin p.ny × Fin p.nx) :
+    fresnelPropagatorBackward cScalar p
+        (ext2 fun i : Fin p.ny × Fin p.nx => fresnelPropagatorForward cScalar p (ext2 x) (i.1 : ℕ) (i.2 : ℕ))
+        (j.1 : ℕ) (j.2 : ℕ) = x j := by
+  rw [(fresnelPropagator_eq_fresnelForward_of_sampled p hs).1, (fresnelPropagator_eq_fresnelForward_of_sampled p hs).2]
+  exact fresnelBackward_inverse p h hx hy hc x j
+
+/-- … and, for distances of the same sign whose *sum* is adequately sampled, the propagator the code builds for `z₁`
+followed by the one for `z₂` is the one for `z₁ + z₂` — the switch takes the transfer-function pipeline for all three. -/
+theorem fresnelPropagator_additive (hx : p.sx = 1) (hy : p.sy = 1) (hc : cutout p = none) (z₁ z₂ : ℚ)
+    (hsign : 0 ≤ z₁ * z₂) (hlam : 0 ≤ p.lam) (hL : 0 < lmax p)
+    (hs : impulseBranch (withParam p (.distance (z₁ + z₂))) = false)
+    (x : Fin p.ny × Fin p.nx → ℂ) (j : Fin p.ny × Fin p.nx) :
+    fresnelPropagatorForward cScalar (withParam p (.distance z₂))
+        (ext2 fun i : Fin p.ny × Fin p.nx =>
+          fresnelPropagatorForward cScalar (withParam p (.distance z₁)) (ext2 x) (i.1 : ℕ) (i.2 : ℕ)) (j.1 : ℕ) (j.2 : ℕ)
+      = fresnelPropagatorForward cScalar (withParam p (.distance (z₁ + z₂))) (ext2 x) (j.1 : ℕ) (j.2 : ℕ) := by
+  have h12 := impulseBranch_of_same_sign p z₁ z₂ hsign hlam hL hs
+  have h1 : impulseBranch (withParam p (.distance z₁)) = false := h12.1
+  have h2 : impulseBranch (withParam p (.distance z₂)) = false := h12.2
+  rw [(fresnelPropagator_eq_fresnelForward_of_sampled _ hs).1, (fresnelPropagator_eq_fresnelForward_of_sampled _ h1).1,
+    (fresnelPropagator_eq_fresnelForward_of_sampled _ h2).1]
+  exact fresnelForward_additive p h hx hy hc z₁ z₂ x j
+
+omit h in
+/-- Sampled regime: the propagator built for `-z`, `.forward`, is the one built for `+z`, `.backward` (the branch decision
+depends on `|z|` only, so both are on the transfer-function pipeline). -/
+theorem fresnelPropagator_neg_z_eq_backward (hs : impulseBranch p = false) (X : ℕ → ℕ → ℂ) :
+    fresnelPropagatorForward cScalar (withParam p (.distance (-p.z))) X = fresnelPropagatorBackward cScalar p X := by
+  have hs' : impulseBranch (withParam p (.distance (-p.z))) = false := by rw [impulseBranch_neg_z]; exact hs
+  rw [(fresnelPropagator_eq_fresnelForward_of_sampled _ hs').1, (fresnelPropagator_eq_fresnelForward_of_sampled _ hs).2]
+  exact fresnelForward_neg_z_eq_backward p X
+
 /-! ### the angular-spectrum propagator: the pipeline with `angularTF` (from the executed radicands, op `tfq`) -/
 
 /-- Angular spectrum (repaired, D30): the power never increases — propagating components are unimodular, evanescent ones
@@ -553,6 +638,59 @@ theorem fresnelTF_is_sampled_native_transfer_function (p : Params) (hn : p.n ≠
   simp only [Function.comp]
   rw [expT_frac, expT_eq_cexp]
   exact (fresnelD_eq_turns p a b hn hl).symm
+
+/-! ### the regime switch: which wavelength decides
+
+The property's regime is worded with *the* wavelength `λ` of the wavefront (`pixel ≥ λ|z|/extent`): the vacuum wavelength.
+The code decides with exactly that quantity; the refractive index enters `k` only. -/
+
+/-- **The regime switch is the property's sampling criterion with the vacuum wavelength**: `make_instance` takes the
+transfer-function pipeline iff `λ|z|/L_max ≤ δ` on both axes (`L_max = max(dims·delta)`). -/
+theorem regime_switch_is_vacuum_wavelength_criterion (p : Params) :
+    impulseBranch p = false ↔ p.lam * |p.z| / lmax p ≤ p.dx ∧ p.lam * |p.z| / lmax p ≤ p.dy := by
+  unfold impulseBranch threshold
+  rw [ratAbs_eq_abs]
+  simp [not_lt]
+
+/-- … and does not depend on the refractive index (real, any value: also `n < 1`), nor on padding or oversampling. -/
+theorem regime_switch_independent_of_refractive_index (p : Params) (n' : ℚ) :
+    impulseBranch (withParam p (.refractiveIndex n')) = impulseBranch p ∧
+      statedRegime (withParam p (.refractiveIndex n')) = statedRegime p := ⟨rfl, rfl⟩
+
+/-- The variant that decides with the wavelength in the medium `λ/n` (`impulseBranchMedium`; seeded patch C04-11) agrees
+with the property's regime for `n ≥ 1`: whatever the code's switch sends to the transfer-function pipeline, it does too … -/
+theorem Alt.medium_wavelength_switch_contains_regime_of_index_ge_one (p : Params) (hn : 1 ≤ p.n) (hlam : 0 ≤ p.lam)
+    (hL : 0 < lmax p) (hs : impulseBranch p = false) : impulseBranchMedium p = false := by
+  have hle : p.lam / p.n * |p.z| / lmax p ≤ p.lam * |p.z| / lmax p := by
+    apply div_le_div_of_nonneg_right _ hL.le
+    apply mul_le_mul_of_nonneg_right _ (abs_nonneg _)
+    exact div_le_self hlam hn
+  obtain ⟨h1, h2⟩ := (regime_switch_is_vacuum_wavelength_criterion p).1 hs
+  unfold impulseBranchMedium
+  rw [ratAbs_eq_abs]
+  simp only [Bool.or_eq_false_iff, decide_eq_false_iff_not, not_lt]
+  exact ⟨hle.trans h1, hle.trans h2⟩
+
+/-- … but for `n < 1` it leaves the property's regime: a propagator inside the stated regime (8×8, pixel `4λ`, `n = 1/2`,
+`|z| = ¾ z_max`, no padding, no oversampling) for which the medium-wavelength switch takes the impulse-response pipeline,
+where unitarity is lost. This is why the model (and the property) fix the vacuum wavelength. -/
+theorem Alt.medium_wavelength_switch_leaves_stated_regime :
+    ∃ p : Params, padOK p = true ∧ statedRegime p = true ∧ impulseBranch p = false ∧ 0 < p.n ∧ p.n < 1 ∧
+      p.sx = 1 ∧ p.sy = 1 ∧ cutout p = none ∧ impulseBranchMedium p = true :=
+  ⟨{ kind := .fresnel, nx := 8, ny := 8, dx := 1/4, dy := 1/4, lam := 1/16, z := 6, n := 1/2, qx := 1, qy := 1,
+     sx := 1, sy := 1 }, by decide +kernel⟩
+
+/-- The transfer function of the impulse-response branch that the driver computes (`fresnelIrTFc`) *is* the code's:
+`δx δy Σ_j ⟨h⟩_j exp(-2πi (i-c)(j-c)/M)` (the centred transform of `FastFourierTransform.forward` on `make_fft_grid` of the
+internal grid) of the sub-pixel means of `impulse_response` **as the code writes it**, `fresnelIrAt p x y =
+exp(ikz)/(iλz)·exp(i k (x²+y²)/2z)`, `k = 2πn/λ`, at the executed sample points `xCoord`. -/
+theorem fresnelIrTF_is_transformed_sampled_impulse_response (p : Params) (hl : p.lam ≠ 0) (hz : p.z ≠ 0) (iy ix : ℕ) :
+    fresnelIrTFc cScalar p iy ix
+      = ((p.dx * p.dy : ℚ) : ℂ) * Fft.sumRange (my p) fun jy => Fft.sumRange (mx p) fun jx =>
+          listMean ((dithers p.sy).flatMap fun dy => (dithers p.sx).map fun dx =>
+              fresnelIrAt p (xCoord p.dx (mx p) jx dx) (xCoord p.dy (my p) jy dy))
+            * (kF (my p) (centred (my p) jy * centred (my p) iy) * kF (mx p) (centred (mx p) jx * centred (mx p) ix)) :=
+  fresnelIrTFc_eq_sampled p hl hz iy ix
 
 /-- The hypotheses of the `fresnelForward_*` theorems are satisfiable together (8×6, `zero_padding = 1`,
 `num_oversampling = 1`, inside the stated regime). -/
@@ -712,6 +850,31 @@ theorem prop_forward_denotes_fresnelForward (p : Params) (X : ℕ → ℕ → Ff
 theorem prop_backward_denotes_fresnelBackward (p : Params) (X : ℕ → ℕ → Fft.PSum) (ky kx : ℕ) :
     PSum.ev (fresnelBackward psumScalar p X ky kx) = fresnelBackward cScalar p (fun a b => PSum.ev (X a b)) ky kx :=
   ev_fresnelBackward p X ky kx
+
+/-- **Op `prop` with the regime switch**: what the driver computes (`fresnelPropagatorForward psumScalar`, either branch)
+denotes `fresnelPropagatorForward cScalar` — the object of the `fresnelPropagator_*` theorems — of the denoted input. -/
+theorem prop_forward_denotes_fresnelPropagator (p : Params) (X : ℕ → ℕ → Fft.PSum) (ky kx : ℕ) :
+    PSum.ev (fresnelPropagatorForward psumScalar p X ky kx)
+      = fresnelPropagatorForward cScalar p (fun a b => PSum.ev (X a b)) ky kx :=
+  ev_fresnelPropagatorForward p X ky kx
+
+theorem prop_backward_denotes_fresnelPropagator (p : Params) (X : ℕ → ℕ → Fft.PSum) (ky kx : ℕ) :
+    PSum.ev (fresnelPropagatorBackward psumScalar p X ky kx)
+      = fresnelPropagatorBackward cScalar p (fun a b => PSum.ev (X a b)) ky kx :=
+  ev_fresnelPropagatorBackward p X ky kx
+
+/-- Op `tfx`: the transfer function the driver prints (either branch) denotes the one of the theorems, and it is the one
+`fresnelPropagatorForward` filters with. -/
+theorem tfx_denotes_switched_transfer_function (p : Params) (qy qx : ℕ) :
+    PSum.ev (tfOpP p qy qx) = fresnelTFSwitched cScalar p qy qx ∧
+      ∀ X, fresnelPropagatorForward cScalar p X = fourierFilter cScalar p (fresnelTFSwitched cScalar p) X :=
+  ⟨ev_fresnelTFSwitched p qy qx, fun X => fresnelPropagatorForward_eq cScalar p X⟩
+
+/-- The impulse-response branch is reachable with the hypotheses of the either-branch theorems (4×3, padded to 6×4, `|z|`
+above the sampling limit). -/
+example : ∃ p : Params, padOK p = true ∧ impulseBranch p = true ∧ p.lam ≠ 0 ∧ p.z ≠ 0 :=
+  ⟨{ kind := .fresnel, nx := 4, ny := 3, dx := 1/4, dy := 1/4, lam := 1/16, z := -7, n := 5/4, qx := 3/2, qy := 4/3,
+     sx := 2, sy := 2 }, by decide +kernel⟩
 
 /-- The hypotheses of the pipeline theorems are satisfiable with a genuinely padded, exactly executable size
 (`2×3` padded to `4×4`, the kernels of which are powers of `i`: a case the driver op `filt` runs). -/
